@@ -1032,6 +1032,192 @@ func timedJobs(o *hx.Opts, quick bool) []*timedJob {
 	return out
 }
 
+// ---------- several idle fallback connections that die mid-exchange ----------
+
+// staleWorld: phase 1 - the TCP server keeps every query until k of them are
+// there (on k connections), then answers them all, so k connections go idle at
+// the client; phase 2 - a query arriving on one of those old connections is
+// read and the connection closed, new connections are answered.
+type staleWorld struct {
+	s        *session
+	k        int
+	mu       sync.Mutex
+	phase    int
+	pending  int
+	barrier  chan struct{}
+	done     chan struct{}
+	q2       []byte
+	accepted int // in phase 2
+	seenN    int // queries read in phase 2
+	seenSame bool
+}
+
+func tcpDerivedReply(q []byte) []byte {
+	r := rawMsg(wireID(q), 0x84, 0x80, 1, q[12:], hx.GenBytes(4, uint64(wireID(q))))
+	frame := make([]byte, 2+len(r))
+	binary.BigEndian.PutUint16(frame, uint16(len(r)))
+	copy(frame[2:], r)
+	return frame
+}
+
+func (w *staleWorld) serveUDP() {
+	defer w.s.wg.Done()
+	buf := make([]byte, 65536)
+	for {
+		n, addr, err := w.s.uc.ReadFromUDP(buf)
+		if err != nil {
+			return
+		}
+		if n < 12 {
+			continue
+		}
+		w.s.uc.WriteToUDP(rawMsg(wireID(buf[:n]), 0x82, 0x80, 0, buf[12:n]), addr)
+	}
+}
+
+func (w *staleWorld) serveTCP() {
+	defer w.s.wg.Done()
+	for {
+		c, err := w.s.tl.Accept()
+		if err != nil {
+			return
+		}
+		w.mu.Lock()
+		old := w.phase == 1
+		if !old {
+			w.accepted++
+		}
+		w.mu.Unlock()
+		w.s.mu.Lock()
+		w.s.conns = append(w.s.conns, c)
+		w.s.mu.Unlock()
+		w.s.wg.Add(1)
+		go func() {
+			defer w.s.wg.Done()
+			defer c.Close()
+			for {
+				var hdr [2]byte
+				if _, err := io.ReadFull(c, hdr[:]); err != nil {
+					return
+				}
+				q := make([]byte, binary.BigEndian.Uint16(hdr[:]))
+				if _, err := io.ReadFull(c, q); err != nil || len(q) < 12 {
+					return
+				}
+				w.mu.Lock()
+				if w.phase == 1 {
+					w.pending++
+					if w.pending == w.k {
+						close(w.barrier)
+					}
+					w.mu.Unlock()
+					select {
+					case <-w.barrier:
+					case <-w.done:
+						return
+					}
+				} else {
+					w.seenN++
+					if !bytes.Equal(q, w.q2) {
+						w.seenSame = false
+					}
+					w.mu.Unlock()
+					if old { // died mid-exchange
+						return
+					}
+				}
+				if _, err := c.Write(tcpDerivedReply(q)); err != nil {
+					return
+				}
+			}
+		}()
+	}
+}
+
+func runStale(id string, k int, p1 []timedQ, q2 timedQ) (*sessResult, error) {
+	s, err := newSession(true)
+	if err != nil {
+		return nil, err
+	}
+	w := &staleWorld{s: s, k: k, phase: 1, barrier: make(chan struct{}), done: make(chan struct{}), seenSame: true, q2: q2.bytes()}
+	defer s.close()
+	defer close(w.done)
+	s.wg.Add(2)
+	go w.serveUDP()
+	go w.serveTCP()
+	u, err := upstream.NewUpstream(fmt.Sprintf("udp://127.0.0.1:%d", s.port), upstream.Opt{})
+	if err != nil {
+		return nil, err
+	}
+	defer u.Close()
+
+	// phase 1: k truncated replies at the same time -> k fallback connections
+	p1ok := make([]bool, k)
+	var wg sync.WaitGroup
+	for i := 0; i < k; i++ {
+		wg.Add(1)
+		go func(i int) {
+			defer wg.Done()
+			q := p1[i].bytes()
+			ctx, cancel := context.WithTimeout(context.Background(), blockedTimeout)
+			defer cancel()
+			hx.Recover(func() {
+				r, err := u.ExchangeContext(ctx, q)
+				if err == nil && r != nil {
+					p1ok[i] = bytes.Equal(*r, tcpDerivedReply(q)[2:])
+					pool.ReleaseBuf(r)
+				}
+			})
+		}(i)
+	}
+	wg.Wait()
+	allOK := true
+	for _, ok := range p1ok {
+		allOK = allOK && ok
+	}
+	// phase 2: the k idle connections are dead, new ones are answered
+	w.mu.Lock()
+	w.phase = 2
+	w.mu.Unlock()
+	res, desc := exchangeOres(u, q2.bytes(), blockedTimeout)
+	w.mu.Lock()
+	acc, seenN, same := w.accepted, w.seenN, w.seenSame
+	w.mu.Unlock()
+	return &sessResult{kind: "stale", c: hx.Case{
+		ID:  id,
+		Coq: hx.App("CStale", hx.Ni(k), q2.coq(), hx.Bool(allOK), res, hx.Ni(acc), hx.Ni(seenN), hx.Bool(same)),
+		Desc: map[string]any{"kind": "stale-idle-conns", "idle_conns_that_die_mid_exchange": k, "phase1_all_answered": allOK,
+			"result": desc, "new_tcp_conns": acc, "tcp_queries_read": seenN, "tcp_queries_all_the_callers": same},
+		FKey: "stale",
+	}}, nil
+}
+
+func staleJobs(o *hx.Opts, quick bool) []*timedJob {
+	var out []*timedJob
+	maxK, per := 4, 2
+	if !quick {
+		maxK, per = 6, 6
+	}
+	for k := 1; k <= maxK; k++ {
+		for v := 0; v < per; v++ {
+			id := fmt.Sprintf("stale:%d:%d", k, v)
+			if !o.Want(id) {
+				continue
+			}
+			r := hx.NewRNG(o.Seed, id)
+			base := r.Intn(60000)
+			var p1 []timedQ
+			for i := 0; i < k; i++ {
+				p1 = append(p1, timedQ{cid: base + 1 + i*7, qn: hx.Pick(r, []int{5, 17, 30}), qseed: r.U64() % 100000})
+			}
+			q2 := timedQ{cid: base, qn: hx.Pick(r, []int{5, 17, 30}), qseed: r.U64() % 100000}
+			k := k
+			out = append(out, &timedJob{id: id, run: func() (*sessResult, error) { return runStale(id, k, p1, q2) }})
+		}
+	}
+	return out
+}
+
 // ---------- generators ----------
 
 var udpExtra = []int{0, 0, 1, 10, 60, 300}
@@ -1213,7 +1399,7 @@ func main() {
 	quick := o.Tier != "thorough"
 
 	// (d) the cases that need real time run in the background of everything else
-	tjobs := timedJobs(o, quick)
+	tjobs := append(timedJobs(o, quick), staleJobs(o, quick)...)
 	var twg sync.WaitGroup
 	for _, j := range tjobs {
 		twg.Add(1)
